@@ -136,8 +136,10 @@ class VLoop(asyncio.SelectorEventLoop):
 
     def call_at(self, when, callback, *args, context=None):
         self._seq += 1
-        g = round(when / GRID) * GRID
-        if abs(when - g) < 1e-4:
+        # deadlines are snapped to the millisecond grid before the rank offset (< 0.1 ms) is
+        # added, so that offsets never accumulate into drift
+        g = round(when * 1000.0) / 1000.0
+        if abs(when - g) < 2.5e-4:
             base = g
         else:
             base = when
